@@ -217,22 +217,32 @@ pub fn c13_resp_client(client: &Client) -> (r: Result<ClientInfoDetails, IggyErr
 }
 
 // server entity invariant for a polled message (RetainedMessage::to_polled_message; the server refuses empty payloads and stores an
-// empty header map as "no headers"): length == payload length (1 ..= u32::MAX), a present header map has a non-empty encoding
+// empty header map as "no headers"): length == payload length (1 ..= u32::MAX); a present header map is valid (keys and values
+// 1..=255 bytes - what the decoder it came from enforces), not empty, and its encoding is shorter than 4 GiB (validation caps it at 100 KB)
 pub open spec fn pm_entity_ok(m: PolledMessage) -> bool {
-    m.length.0 == m.payload@.len() && 1 <= m.payload@.len() <= u32::MAX && (m.headers matches Some(h) ==> hdr_bytes(h).len() >= 1)
+    m.length.0 == m.payload@.len() && 1 <= m.payload@.len() <= u32::MAX
+        && (m.headers matches Some(h) ==> hmap_valid(h@) && 1 <= hdr_bytes(h).len() <= u32::MAX)
 }
 // x carries the same data as m
 pub open spec fn pm_same(x: PolledMessage, m: PolledMessage) -> bool {
     &&& x.offset == m.offset && x.state == m.state && x.timestamp == m.timestamp && x.id == m.id && x.checksum == m.checksum
     &&& x.length.0 == m.length.0 && x.payload@ == m.payload@
-    &&& match m.headers { Some(h) => x.headers matches Some(q) && hdr_same(q, h), None => x.headers is None }
+    &&& match m.headers { Some(h) => x.headers matches Some(q) && hmap_view(q@) == hmap_view(h@), None => x.headers is None }
+}
+// the header block the server emits for a valid map is the encoding of a valid map
+pub proof fn lemma_hdr_bytes_valid(h: HashMap<HeaderKey, HeaderValue>)
+    requires hmap_valid(h@),
+    ensures hdr_block_valid(hdr_bytes(h)), lists(es_of(h), hmap_view(h@)),
+{
+    axiom_key_order(h);
+    lemma_es_of_lists(h);
 }
 // label: C13.resp.polled_message.same
 pub proof fn c13_resp_polled_message_same(x: PolledMessage, m: PolledMessage)
     requires pm_entity_ok(m), pm_matches(x, pm_wire(m)),
     ensures pm_same(x, m),
 {
-    if m.headers is Some { axiom_hdr_bytes(m.headers->0); }
+    if m.headers is Some { lemma_hdr_bytes_valid(m.headers->0); }
 }
 
 // label: C13.resp.polled_messages
@@ -249,7 +259,7 @@ pub fn c13_resp_polled_messages(pm: &PolledMessages) -> (r: Result<PolledMessage
         assert forall|i: int| 0 <= i < ws.len() implies pm_valid(#[trigger] ws[i]) by {
             let m = pm.messages@[i];
             assert(pm_entity_ok(m));
-            if m.headers is Some { axiom_hdr_bytes(m.headers->0); }
+            if m.headers is Some { lemma_hdr_bytes_valid(m.headers->0); }
         }
     }
     let b = map_polled_messages(pm);
